@@ -456,6 +456,9 @@ class Tr:
         out.append("(* one derivation: method m applied to configuration self (ra = the reference passed as\n   `value` when the method takes a component object) *)")
         out.append("Definition step (m : meth) (ra : ref) (h : heap) (self : inst) : heap * inst :=\n  match m with\n  " + "\n  ".join(cases) + "\n  end.\n")
         out.append(run_def + "\n")
+        unf = [f"m_{m}" for m in self.order] + [r.setter(n) for r in (self.opts, self.inst) for n, _, _ in r.fields]
+        out.append("(* for the proofs: everything generated above may be unfolded by `autounfold with emu` *)")
+        out.append("#[global] Hint Unfold step mk_root inst_refs content run_args " + " ".join(unf) + " : emu.\n")
         meta = {"methods": [{"name": m, "arg": self.done[m][1]} for m in pubs], "run_names": run_names,
                 "n_ref_fields": len(refs), "ref_fields": refs, "cls": CLS}
         return "\n".join(out), meta
